@@ -6,6 +6,8 @@ extern "C" {
 #include <uriparser/UriBase.h>
 }
 #include <unordered_map>
+#include <map>
+#include <sys/mman.h>
 #include "vf_common.hpp"
 
 namespace vf {
@@ -73,6 +75,17 @@ struct CbScope { CbScope() { tl_in_cb++; } ~CbScope() { tl_in_cb--; } };
 // ---------------------------------------------------------------- guarded memory
 // A page run with PROT_NONE pages on both sides. Data can be placed flush against
 // either fence. In sanitizer builds exact-size heap blocks are used instead.
+// A block whose *stated* size can be honoured without committing memory: address space only, pages appear when touched.
+// Used where a caller states a capacity far above its need ("no limit"): the block really is that large, so a library
+// that touched more of it than the text needs would still be within what it was told. One block per size per process.
+inline void* reserve_block(size_t bytes) {
+    static std::map<size_t, void*> cache;
+    auto it = cache.find(bytes); if (it != cache.end()) return it->second;
+    void* p = mmap(nullptr, bytes, PROT_READ | PROT_WRITE, MAP_PRIVATE | MAP_ANONYMOUS | MAP_NORESERVE, -1, 0);
+    if (p == MAP_FAILED) p = nullptr;
+    cache[bytes] = p; return p;
+}
+
 struct GuardRegion {
     char* base = nullptr;     // first usable byte
     size_t usable = 0;        // bytes between the fences (multiple of page size)
